@@ -22,6 +22,11 @@ Inductive expr :=
 | ECall (f : ident) (args : list expr)
 | EIdx (a : ident) (idx : list expr).
 
+(* plain structs: member j (j < 8) of the struct variable x is the cell [mkey x j]; a member read or store is
+   an ordinary variable / element access on that cell (printed `v<x>.m<j>`), so structs add two statements only *)
+Definition mkey (x : ident) (j : nat) : ident := 1000 + 8 * x + j.
+Record fld := { fty : ty; fdims : list nat }.   (* scalar member: fdims = [] *)
+
 Inductive lval := LVar (x : ident) | LIdx (a : ident) (idx : list expr).
 
 Inductive stmt :=
@@ -37,7 +42,9 @@ Inductive stmt :=
 | SContinue
 | SReturn (e : option expr)
 | SBlock (ss : list stmt)
-| SPrint (nl : bool) (args : list expr).
+| SPrint (nl : bool) (args : list expr)
+| SStruct (sn : nat) (x : ident) (flds : list fld)   (* `S<sn> v<x>;` - every member zero-initialised *)
+| SCopy (x y : ident) (flds : list fld).             (* `v<x> = v<y>;` - whole-struct copy, member by member *)
 
 Record param := { pty : ty; pname : ident; pdef : option expr }.
 Record func := { fname : ident; fret : option ty; fparams : list param; fbody : list stmt }.
